@@ -195,8 +195,12 @@ func (g *gen) onePure() {
 			}
 		}
 		nums, vs := g.tlvTriples(g.r.Intn(4))
+		if g.r.Intn(4) == 0 { // TLVs without a value, also in last position (disconnect, SMP abort)
+			nums, vs = append(nums, uint64(g.r.Intn(12)), 0), append(vs, []byte{})
+		}
 		b := g.build("plain", nums, append([][]byte{text}, vs...))
 		g.parse("plain", b)
+		g.roundTripPlain(text, nums, vs, b)
 		g.parse("plain", g.mutate(b))
 		g.build("plainpad", nums, append([][]byte{text}, vs...))
 	case 9:
@@ -474,4 +478,37 @@ func runPure(seed int64, n int, out *emitter) map[string]int {
 		g.onePure()
 	}
 	return g.dist
+}
+
+// C17 on the implementation itself: parsing the serialisation of a well-formed plaintext (NUL-free
+// text, TLV length fields matching the values) yields the text and exactly the TLVs it was built from
+func (g *gen) roundTripPlain(text []byte, nums []uint64, vs [][]byte, ser []byte) {
+	if olog == nil {
+		return
+	}
+	for _, c := range text {
+		if c == 0 {
+			return
+		}
+	}
+	var ts []string
+	for i := 0; i+1 < len(nums); i += 2 {
+		if nums[i+1] != uint64(len(vs[i/2])) {
+			return
+		}
+		v := "-"
+		if len(vs[i/2]) > 0 {
+			v = hx(vs[i/2])
+		}
+		ts = append(ts, fmt.Sprintf("%d:%d:%s", nums[i], nums[i+1], v))
+	}
+	t := "-"
+	if len(text) > 0 {
+		t = hx(text)
+	}
+	want := fmt.Sprintf("true %s [%s]", t, strings.Join(ts, ","))
+	olog.ok("C17")
+	if got := otr3.VerifParse("plain", ser); got != want {
+		olog.viol("C17", "plaintext-round-trip-differs", fmt.Sprintf("built %s, serialised to %x, parsed back as %s", want, ser, got))
+	}
 }
